@@ -48,7 +48,7 @@ from ..tok import S
 from ..gen import graphs as G
 
 PID = "C13"
-COQ_HEADER = "From Coq Require Import List NArith ZArith.\nImport ListNotations.\nFrom SK Require Import lib.Tok lib.LGraph model.C13_Model model.C13_Trace.\n"
+COQ_HEADER = "From Coq Require Import List NArith ZArith.\nImport ListNotations.\nFrom SK Require Import lib.Tok lib.LGraph model.C13_Model model.C13_Trace model.C13_Opts.\n"
 SHARD = 40
 IMPL_TIMEOUT = 1500
 COQ_TIMEOUT = 1500
@@ -90,7 +90,7 @@ ASSUMPTIONS = ["list-valued pre-grouping attributes may be given as lists or tup
                "what the caller does to its own objects between two calls (in-place edits, mutated results) reaches the model as the resulting "
                "template list (OTemplates); the model functions are pure, so every call equals its fresh evaluation by construction"]
 TESTED_NOT_PROVED = []
-LEVEL_TEXT = ("Machine-checked proof (Coq, 33 theorems in coq/props/C13.v, all closed under the global context). Generic part, for every list "
+LEVEL_TEXT = ("Machine-checked proof (Coq, 36 theorems in coq/props/C13.v, all closed under the global context). Generic part, for every list "
               "of items and every decidable test `iso` that is an equivalence, with an iso-invariant pre-grouping attribute as the code reads "
               "it: GraphCluster.iterative_cluster / fit (visited set, comparison with the first member only, attribute pre-filter) gives every "
               "item exactly one class and two items share a class IFF iso (C13_partition; clusters list = rule_to_cluster, a partition of the "
@@ -113,6 +113,9 @@ LEVEL_TEXT = ("Machine-checked proof (Coq, 33 theorems in coq/props/C13.v, all c
               "C13_graph_isomorphism_options (None matchers / use_defaults of graph_morphism.graph_isomorphism), C13_partition_raw and C13_incremental_raw (the partition and the incremental "
               "theorem on the caller's raw graphs: same class IFF a bijection preserves the configured labels after defaults and every bond's "
               "presence and configured attribute; any number of labels). "
+              "Wave 4: the optional matcher arguments of lib_check / iterative_cluster are options of the model (model/C13_Opts.v, runR): "
+              "C13_lib_check_fallback_per_argument (node labels from the caller's matcher iff nodeMatch was given, bond attribute iff edgeMatch "
+              "was given), C13_lib_check_options, C13_iterative_cluster_no_fallback. "
               "Model and code are compared after every call on every run.")
 LEVEL_NOTE = ("Trusted: Coq kernel + vm_compute; the hand-written model and encoders; networkx is_isomorphic returns the verdict of the verified "
               "enumerator (the generic theorems need only that it is an equivalence; monitored: classes compared after every call, oracle uses "
@@ -184,8 +187,40 @@ def _group(case, idx):
     return obj[b] if obj else b
 
 
+def _obj_cfg(case):
+    return case.get("cfg") or DEF_CFG
+
+
+def _srcs(case, op):
+    """Where the two matcher arguments of a lib_check / gc_iter op come from: "none" (omitted / None), "obj" (the object's own
+    matcher handed in), "ex" (a matcher the caller built from case["match"]).  Flags {"nm": ..., "em": ...} on the op; without
+    flags: the behaviour of rounds 3-4 (both caller-built when the case has "match"; lib_check otherwise omits both, a labelled
+    gc_iter passes the object's own, an unlabelled one passes None)."""
+    fl = _flags(op)
+    if "nm" in fl or "em" in fl:
+        return fl.get("nm", "none"), fl.get("em", "none")
+    if op[0] == "gc_iter" and not op[2]:
+        return "none", "none"
+    if case.get("match") is not None:
+        return "ex", "ex"
+    return ("none", "none") if op[0] == "lib_check" else ("obj", "obj")
+
+
+def _mix(case, ns, es, fallback):
+    """The configuration a call compares with (round 5, wave 4): node labels from the source of nodeMatch, bond attribute from
+    the source of edgeMatch; lib_check falls back to the object's matcher PER ARGUMENT, iterative_cluster does not (None)."""
+    src = {"obj": _obj_cfg(case), "ex": case.get("match"), "none": _obj_cfg(case) if fallback else None}
+    n, e = src[ns], src[es]
+    return {"names": list(n["names"]) if n else [], "defaults": list(n["defaults"]) if n else [],
+            "edge": e["edge"] if e else "__no_edge_matcher__"}
+
+
 def _eff(case):
-    """Configuration the matchers really use: explicit matchers > constructor options > defaults."""
+    """Configuration the incremental calls of the history really compare with: explicit matchers > constructor options >
+    defaults, per argument (case["lc"] = sources of lib_check's two matcher arguments, constant within a history)."""
+    lc = case.get("lc")
+    if lc:
+        return _mix(case, lc[0], lc[1], True)
     return case.get("match") or case.get("cfg") or DEF_CFG
 
 
@@ -240,7 +275,8 @@ def _morph(O, tgt):
 
 
 def _same_default(a, b):
-    return a is b or (isinstance(a, (bool, str)) and type(a) is type(b) and a == b)
+    return (a is b or (isinstance(a, (bool, str)) and type(a) is type(b) and a == b)
+            or (isinstance(a, list) and isinstance(b, list) and len(a) == len(b) and all(_same_default(x, y) or (type(x) is type(y) and x == y) for x, y in zip(a, b))))
 
 
 class _World:
@@ -252,6 +288,18 @@ class _World:
         self.twin = bool(case.get("twin"))
         self.shared = bool(case.get("shared"))
         self.rk = case.get("rule_key", "g")
+        # wave 4: "default_keys" -- the entries use the DEFAULT key names of the signatures (rule_key "gml"; attribute_key "WLHash" for
+        # GraphCluster.fit / cluster / fit, "signature" for lib_check), so that a call may omit them
+        self.defkeys = bool(case.get("default_keys")) and not case.get("twin")
+        if self.defkeys:
+            self.rk = "gml"
+        self.akeys = (ATTR_KEY,)
+        if self.defkeys:
+            kinds = {op[0] for op in case["ops"]}
+            others = bool(kinds & {"cluster", "fit", "gc_fit"})
+            # only the key(s) the history's entry points read by default are real; the other default name holds a non-invariant decoy
+            self.akeys = (("WLHash", "signature") if ("lib_check" in kinds and others) else ("signature",) if "lib_check" in kinds
+                          else ("WLHash",))
         self.call = case.get("call", "short")
         self.mode = case["attr_mode"]
         self.objs = {}        # group -> nx.Graph
@@ -312,7 +360,8 @@ class _World:
             return cls()
         # the backend name is accepted case-insensitively by both constructors: "NX" / "Nx" must configure the nx matchers too
         vals = [list(cfg["names"]), list(cfg["defaults"]), cfg["edge"], cfg.get("backend", "nx")]
-        return self._call(cls, ["node_label_names", "node_label_default", "edge_attribute", "backend"], vals, {"backend": "nx"})
+        return self._call(cls, ["node_label_names", "node_label_default", "edge_attribute", "backend"], vals,
+                          {"node_label_names": ["element", "charge"], "node_label_default": ["*", 0], "edge_attribute": "order", "backend": "nx"})
 
     def gc(self):
         from synkit.Graph.Matcher.graph_cluster import GraphCluster
@@ -333,6 +382,9 @@ class _World:
     def _call(self, f, names, vals, defaults):
         if self.call == "kw":
             return f(**dict(zip(names, vals)))
+        if self.call == "kwmin":
+            # only the arguments that differ from the signature defaults, by keyword (each optional argument alone / in pairs)
+            return f(**{n: v for n, v in zip(names, vals) if not (n in defaults and _same_default(v, defaults[n]))})
         vals = list(vals)
         if self.call != "pos":
             while vals and names[len(vals) - 1] in defaults and _same_default(vals[-1], defaults[names[len(vals) - 1]]):
@@ -369,7 +421,7 @@ class _World:
     def _set_attrs(self, d, b):
         if self.mode == "none":
             return
-        for key, j in ((ATTR_KEY, b), (ATTR_KEY2, b + self.n)) if self.twin else ((ATTR_KEY, b),):
+        for key, j in ((ATTR_KEY, b), (ATTR_KEY2, b + self.n)) if self.twin else tuple((k_, b) for k_ in self.akeys):
             a = self.case["items"][j]["attr"]
             # list-valued attributes may be handed over as tuples ("as_tuple"): GraphCluster reads every non-str value as a
             # multiset (sorted(value)); BatchCluster must read it the same way (/repo fix after 6f9daf3, see known_findings.d)
@@ -394,8 +446,9 @@ class _World:
                 self._decoy = nx.Graph()
                 self._decoy.add_node(1, element="C", charge=0)
             d.setdefault("gml", self._decoy)
-            d.setdefault("WLHash", "decoy%d" % (idx % 2))
-            d.setdefault("signature", "decoy%d" % (idx % 2))
+            for k_ in ("WLHash", "signature"):
+                if k_ not in self.akeys:
+                    d.setdefault(k_, "decoy%d" % (idx % 2))
         return d
 
     def data(self, idxs):
@@ -414,6 +467,8 @@ class _World:
     def key(self, op):
         if self.mode == "none" or _flags(op).get("nokey"):
             return None
+        if self.defkeys:
+            return "signature" if op[0] == "lib_check" else "WLHash" if op[0] in ("cluster", "fit", "gc_fit") else self.akeys[0]
         return ATTR_KEY2 if self.side(_op_idxs(op)) else ATTR_KEY
 
     def tobs(self):
@@ -440,12 +495,10 @@ class _World:
             ak = self.key(op)
             ents = [self.use(i) for i in op[1]]
             attrs = None if ak is None else [e.get(ak) for e in ents]
-            if not op[2]:
-                nmf = emf = None
-            elif self.explicit_matchers() is not None:
-                nmf, emf = self.explicit_matchers()
-            else:
-                nmf, emf = gc.nodeMatch, gc.edgeMatch
+            ns, es = _srcs(self.case, op)
+            ex = self.explicit_matchers() or (None, None)
+            nmf = {"none": None, "obj": gc.nodeMatch, "ex": ex[0]}[ns]
+            emf = {"none": None, "obj": gc.edgeMatch, "ex": ex[1]}[es]
             clusters, r2c = self._call(gc.iterative_cluster, ["rules", "attributes", "nodeMatch", "edgeMatch"],
                                        [[e[rk] for e in ents], attrs, nmf, emf],
                                        {"attributes": None, "nodeMatch": None, "edgeMatch": None})
@@ -455,7 +508,8 @@ class _World:
         if k == "gc_fit":
             data = self.data(op[1])
             res = self._call(self.gc().fit, ["data", "rule_key", "attribute_key", "strip"],
-                             [data, rk, self.key(op), bool(self.case.get("strip", False))], {"strip": False})
+                             [data, rk, self.key(op), bool(self.case.get("strip", False))],
+                             {"rule_key": "gml", "attribute_key": "WLHash", "strip": False})
             classes = [d.get("class") for d in data]
             o = [classes]
             if not (res is data):
@@ -476,9 +530,13 @@ class _World:
         if k == "lib_check":
             d = self.use(op[1])
             self._note_side([op[1]])
-            nmf, emf = self.explicit_matchers() or (None, None)
+            ns, es = _srcs(self.case, op)
+            ex = self.explicit_matchers() or (None, None)
+            nmf = {"none": None, "obj": self.bc().nodeMatch, "ex": ex[0]}[ns]
+            emf = {"none": None, "obj": self.bc().edgeMatch, "ex": ex[1]}[es]
             res, self.templates = self._call(self.bc().lib_check, ["data", "templates", "rule_key", "attribute_key", "nodeMatch", "edgeMatch"],
-                                             [d, self.templates, rk, self.key(op), nmf, emf], {"nodeMatch": None, "edgeMatch": None})
+                                             [d, self.templates, rk, self.key(op), nmf, emf],
+                                             {"rule_key": "gml", "attribute_key": "signature", "nodeMatch": None, "edgeMatch": None})
             classes = [d.get("class")]
             o = [classes]
             if res is not d:
@@ -489,7 +547,7 @@ class _World:
             self._note_side(op[1])
             t_in = self.templates if (self.templates is not None or self.shared) else []
             res, self.templates = self._call(self.bc().cluster, ["data", "templates", "rule_key", "attribute_key"],
-                                             [data, t_in, rk, self.key(op)], {})
+                                             [data, t_in, rk, self.key(op)], {"rule_key": "gml", "attribute_key": "WLHash"})
             classes = [d.get("class") for d in data]
             o = [classes]
             if res is not data:
@@ -502,7 +560,8 @@ class _World:
             try:
                 try:
                     res, self.templates = self._call(self.bc().fit, ["data", "templates", "rule_key", "attribute_key", "batch_size"],
-                                                     [data, self.templates, rk, self.key(op), op[2]], {"batch_size": None})
+                                                     [data, self.templates, rk, self.key(op), op[2]],
+                                                     {"rule_key": "gml", "attribute_key": "WLHash", "batch_size": None})
                 except ValueError:
                     if op[2] is not None and op[2] < 1:
                         # the contract: ValueError, nothing processed; with the flag "expect" the model is told "library unchanged"
@@ -645,11 +704,12 @@ def _const_side(case, idxs):
 def _in_domain(case):
     try:
         cfg = _eff(case)
-        if len(cfg["names"]) != len(cfg["defaults"]):
-            return False
-        for d in cfg["defaults"]:
-            if isinstance(d, bool) or not isinstance(d, (int, str)):
+        for cf in _cfgs(case):
+            if len(cf["names"]) != len(cf["defaults"]):
                 return False
+            for d in cf["defaults"]:
+                if isinstance(d, bool) or not isinstance(d, (int, str)):
+                    return False
         n = _nbase(case)
         if case.get("twin") and len(case["items"]) != 2 * n:
             return False
@@ -663,12 +723,14 @@ def _in_domain(case):
                 if u == v or frozenset((u, v)) in seen:
                     return False
                 seen.add(frozenset((u, v)))
-                _order_units(a.get(cfg["edge"]))
+                for cf in _cfgs(case):
+                    _order_units(a.get(cf["edge"]))
             for _, a in g["nodes"]:
-                for k in cfg["names"]:
-                    x = a.get(k)
-                    if x is not None and (isinstance(x, bool) or not isinstance(x, (int, str))):
-                        return False
+                for cf in _cfgs(case):
+                    for k in cf["names"]:
+                        x = a.get(k)
+                        if x is not None and (isinstance(x, bool) or not isinstance(x, (int, str))):
+                            return False
             a = it["attr"]
             if case["attr_mode"] == "str" and a is None:
                 continue
@@ -711,6 +773,11 @@ def _in_domain(case):
     return True
 
 
+def _cfgs(case):
+    """Every configuration a call of the history may compare with: the object's, the caller's explicit one, the defaults."""
+    return [c for c in (_obj_cfg(case), case.get("match"), DEF_CFG) if c is not None]
+
+
 def _norm_cfg(cfg):
     return (tuple(sorted(zip(cfg["names"], [repr(d) for d in cfg["defaults"]]))), cfg["edge"])
 
@@ -733,7 +800,7 @@ def _coq_item(idx, it, case, I, NK=None, EK=None):
             try:
                 o = _order_units(x)
             except ValueError:
-                if k == cfg["edge"]:
+                if any(k == cf["edge"] for cf in _cfgs(case)):
                     raise
                 continue
             if o is not None:
@@ -788,42 +855,59 @@ def _coq_opx(op):
     return "OBase (%s)" % _coq_op(op)
 
 
+_SRC = {"none": "MNone", "obj": "MObj", "ex": "MExplicit"}
+
+
+def _coq_opR(op, case):
+    """Round 5 (wave 4): lib_check / gc_iter carry the SOURCES of their two matcher arguments; the model applies each entry
+    point's own fallback rule (per argument for lib_check, none for iterative_cluster)."""
+    if op[0] == "lib_check":
+        ns, es = _srcs(case, op)
+        return "RLibCheck %s %s %s" % (cnat(op[1]), _SRC[ns], _SRC[es])
+    if op[0] == "gc_iter":
+        ns, es = _srcs(case, op)
+        return "RGcIter %s %s %s" % (clist([cnat(i) for i in op[1]]), _SRC[ns], _SRC[es])
+    return "RBase (%s)" % _coq_opx(op)
+
+
 def coq_case(case):
     if not _in_domain(case):
         return None
     import importlib.util
     if importlib.util.find_spec("mod") is not None:
         return None           # the contract ops of the model assume that the optional `mod` package is not installed
-    cfg = _eff(case)
-    vals = list(cfg["defaults"]) + list(DEF_CFG["defaults"])
+    cfgs = _cfgs(case)
+    vals = [d for cf in cfgs for d in cf["defaults"]]
     for it in case["items"]:
         for _, a in it["g"]["nodes"]:
             for v in a.values():
                 if _simple(v):
                     vals.append(v)
     I = G.Intern(vals)
-    NK, EK = G.Intern(list(cfg["names"]) + list(DEF_CFG["names"])), G.Intern([cfg["edge"], DEF_CFG["edge"]])
+    NK, EK = G.Intern([k for cf in cfgs for k in cf["names"]]), G.Intern([cf["edge"] for cf in cfgs])
     mode = {"none": "ANone", "str": "AStr", "list": "AList", "mixed": "AMixed"}[case["attr_mode"]]
     pool = clist([_coq_item(i, it, case, I, NK, EK) for i, it in enumerate(case["items"])])
-    ccfg = "{| cc_names := %s; cc_defs := %s; cc_edge := %s |}" % (
-        clist([cN(NK(k)) for k in cfg["names"]]), clist([cN(I(d)) for d in cfg["defaults"]]), cN(EK(cfg["edge"])))
+
+    def ccfg(cf):
+        return "{| cc_names := %s; cc_defs := %s; cc_edge := %s |}" % (
+            clist([cN(NK(k)) for k in cf["names"]]), clist([cN(I(d)) for d in cf["defaults"]]), cN(EK(cf["edge"])))
+    c, cm = _obj_cfg(case), case.get("match") or _obj_cfg(case)
     first_extra = next((i for i, o in enumerate(case["ops"]) if o[0] in EXTRA_OPS), len(case["ops"]))
     main, extra = case["ops"][:first_extra], case["ops"][first_extra:]      # the trailing part may mix stateless calls and contract ops
     if not extra:
-        return "runr %s %s %s %s" % (ccfg, mode, pool, clist([_coq_opx(o) for o in main]))
+        return "runR %s %s %s %s %s" % (ccfg(c), ccfg(cm), mode, pool, clist([_coq_opR(o, case) for o in main]))
     xs = []
     for o in extra:
         if o[0] == "iso":
             use_nm, use_em, use_def = _ISO_HOW[o[3]]
-            xs.append("tbool (iso_call_pool c cdef %s %s %s rpool %s %s)" % (cbool(use_nm), cbool(use_em), cbool(use_def), cnat(o[1]), cnat(o[2])))
+            # the matchers handed to graph_isomorphism are the caller's explicit ones when the case has them, else the object's
+            xs.append("tbool (iso_call_pool cm cdef %s %s %s rpool %s %s)" % (cbool(use_nm), cbool(use_em), cbool(use_def), cnat(o[1]), cnat(o[2])))
         elif o[0] in CONTRACT_OPS:
-            xs.append("fst (stepx (cc_defs c) %s pool [] (%s))" % (mode, _coq_opx(o)))
+            xs.append("fst (stepx (cc_defs c) %s (map (mk_item c) rpool) [] (%s))" % (mode, _coq_opx(o)))
         else:
             xs.append("batch_dicts_tok %s %s" % (cnat(max(0, o[2])), clist([cnat(i) for i in o[1]])))
-    cdef = "{| cc_names := %s; cc_defs := %s; cc_edge := %s |}" % (
-        clist([cN(NK(k)) for k in DEF_CFG["names"]]), clist([cN(I(d)) for d in DEF_CFG["defaults"]]), cN(EK(DEF_CFG["edge"])))
-    return "(let c := %s in let cdef := %s in let rpool := %s in let pool := map (mk_item c) rpool in L (playx (cc_defs c) %s pool [] %s ++ %s))" % (
-        ccfg, cdef, pool, mode, clist([_coq_opx(o) for o in main]), clist(xs))
+    return "(let c := %s in let cm := %s in let cdef := %s in let rpool := %s in L (playR c cm %s rpool [] %s ++ %s))" % (
+        ccfg(c), ccfg(cm), ccfg(DEF_CFG), pool, mode, clist([_coq_opR(o, case) for o in main]), clist(xs))
 
 
 # ------------------------------------------------------------------ reference isomorphism (independent, brute force)
@@ -889,9 +973,9 @@ def ref_iso(g1, g2, labelled=True, cfg=DEF_CFG):
     return rec(0, {}, set())
 
 
-def ref_partition(case, idxs, labelled=True):
+def ref_partition(case, idxs, labelled=True, cfg=None):
     """Isomorphism classes of the listed pool items as a set of frozensets of POSITIONS."""
-    cfg = _eff(case)
+    cfg = cfg or _eff(case)
     reps, cls = [], []
     for p, i in enumerate(idxs):
         for c, r in enumerate(reps):
@@ -1180,9 +1264,15 @@ def oracle(case):
                 return        # topology-only matching is outside the property text (correspondence only)
             if k == "gc_fit" and case.get("match") is not None:
                 return
+            gcfg = None
+            if k == "gc_iter":
+                ns, es = _srcs(case, op)
+                if "none" in (ns, es):
+                    return    # iterative_cluster does not fall back: a side without matcher is not compared (correspondence only)
+                gcfg = _mix(case, ns, es, False)
             if None in classes:
                 fails.append(dict(clause="partition", detail="%s left an item without a class" % k))
-            elif inv and _partition(classes) != ref_partition(case, op[1], labelled):
+            elif inv and _partition(classes) != ref_partition(case, op[1], labelled, gcfg):
                 fails.append(dict(clause="partition", detail="%s on %r: classes %r are not the isomorphism classes" % (k, op[1], classes)))
             return
         if k in ("templates", "reset", "meta"):
@@ -1190,8 +1280,9 @@ def oracle(case):
             return
         if k == "iso":
             use_nm, use_em, use_def = _ISO_HOW[op[3]]
-            ncfg = cfg if use_nm else DEF_CFG if use_def else None
-            ecfg = cfg if use_em else DEF_CFG if use_def else None
+            icfg = case.get("match") or _obj_cfg(case)      # the matchers handed in: the caller's explicit ones, else the object's
+            ncfg = icfg if use_nm else DEF_CFG if use_def else None
+            ecfg = icfg if use_em else DEF_CFG if use_def else None
             want = ref_iso(items[op[1]]["g"], items[op[2]]["g"], True,
                            {"names": ncfg["names"] if ncfg else [], "defaults": ncfg["defaults"] if ncfg else [],
                             "edge": ecfg["edge"] if ecfg else "__no_edge_matcher__"})
@@ -2330,6 +2421,75 @@ def gen_cases(tier, rng):
                 raw.append(["iso", 0, j, how] if rng2.random() < 0.5 else ["iso", j, 0, how])
         try:
             c["ops"] = _finalize(c, raw)
+            rest.append(c)
+        except ValueError:
+            pass
+    # round 5 (wave 4): every optional matcher argument supplied ALONE, in pairs and all together.  lib_check falls back to the
+    # object's own matcher per argument; the items are a graph, a relabelled copy and copies that differ in exactly ONE thing that
+    # one of the two readings (caller's matcher / object's matcher) compares: charge, hcount, element, order, standard_order
+    lcs = [("ex", "none"), ("none", "ex"), ("ex", "ex"), ("obj", "ex"), ("ex", "obj"), ("obj", "none"), ("none", "obj"), ("obj", "obj")]
+    for t in range(72 if quick else 400):
+        m = CFGS[t % 7]
+        ocfg = None if t % 3 == 0 else CFGS[(t * 5 + 3) % 7]
+        g0 = _cfg_pool(rng2, [rng2.choice(small_corpus if rng2.random() < 0.5 else [g for g in synth if g["edges"]])], 1, m)[0]["g"]
+        for _, a in g0["nodes"]:
+            a.setdefault("charge", 0)
+            a.setdefault("hcount", 0)
+        variants = [_copy(g0), _relabelled(g0, rng2)]
+        for key, vals_ in (("charge", [0, 1, 2]), ("hcount", [0, 1, 2]), ("element", ["C", "N", "O"])):
+            h = _relabelled(g0, rng2) if rng2.random() < 0.5 else _copy(g0)
+            a = rng2.choice(h["nodes"])[1]
+            a[key] = rng2.choice([v for v in vals_ if v != a.get(key)])
+            variants.append(h)
+        if g0["edges"]:
+            for key, vals_ in (("standard_order", [0, 1, -1]), ("order", [1, 2, 3])):
+                h = _relabelled(g0, rng2) if rng2.random() < 0.5 else _copy(g0)
+                a = rng2.choice(h["edges"])[2]
+                a[key] = rng2.choice([v for v in vals_ if v != a.get(key)])
+                variants.append(h)
+        items = [{"g": h, "src": "near" if i > 1 else "relabel" if i else "dup"} for i, h in enumerate(variants)]
+        size = len(items)
+        _set_attrs(items, "none", True, rng2)
+        lc = lcs[t % len(lcs)]
+        c = dict(kind="options/single-matcher", attr_mode="none", invariant=True, items=items, ops=[], match=m, lc=list(lc),
+                 call=rng2.choice(["short", "pos", "kw", "kwmin", "kwmin"]), shared=rng2.random() < 0.6)
+        if ocfg is not None:
+            c["cfg"] = ocfg
+        fl = {"nm": lc[0], "em": lc[1]}
+        order = list(range(1, size))
+        rng2.shuffle(order)
+        raw = [["templates", [[0, rng2.choice([0, 3, 7])]]]] + [["lib_check", i, dict(fl)] for i in order]
+        raw += [["reset"]] + [["lib_check", i, dict(fl)] for i in rng2.sample(range(size), min(4, size))]
+        for _ in range(2):
+            gs = rng2.choice(["none", "obj", "ex"]), rng2.choice(["none", "obj", "ex"])
+            raw.append(["gc_iter", rng2.sample(range(size), size), gs != ("none", "none"), {"nm": gs[0], "em": gs[1]}])
+        raw.append(["iso", 0, rng2.randrange(1, size), rng2.choice(sorted(_ISO_HOW))])
+        try:
+            c["ops"] = _finalize(c, raw)
+            rest.append(c)
+        except ValueError:
+            pass
+    for c in rest:
+        if c.get("call") == "kw" and rng2.random() < 0.4:
+            c["call"] = "kwmin"       # only the arguments that differ from the signature defaults, by keyword
+    # wave 4: the DEFAULT key names of the signatures (rule_key "gml", attribute_key "WLHash" / "signature"), so that rule_key and
+    # attribute_key can be omitted (trailing defaults in the positional styles, by omission in kwmin)
+    for c in rest:
+        if (c["attr_mode"] in ("str", "list") and not c.get("twin") and "rule_key" not in c and c["items"]
+                and all(it.get("attr") is not None for it in c["items"]) and rng2.random() < 0.2):
+            c["default_keys"] = True
+            c["call"] = rng2.choice(["short", "kwmin", "kwmin", "kw", "pos"])
+            c["kind"] += "+default-keys"
+    for t in range(16 if quick else 80):      # ... and histories of lib_check alone (its default attribute_key is "signature", not "WLHash")
+        size = rng2.randint(4, 7)
+        items = _pool(rng2, rng2.sample(small_corpus, 2) if rng2.random() < 0.6 else rng2.sample(synth, 3), size)
+        _set_attrs(items, rng2.choice(["str", "list"]), True, rng2)
+        c = dict(kind="options/lib-check-default-keys", attr_mode="str" if isinstance(items[0]["attr"], str) else "list", invariant=True,
+                 items=items, ops=[], default_keys=True, call=rng2.choice(["short", "kwmin"]), shared=rng2.random() < 0.5)
+        order = list(range(size))
+        rng2.shuffle(order)
+        try:
+            c["ops"] = _finalize(c, [["lib_check", i] for i in order] + [["reset"]] + [["lib_check", i] for i in order[::-1][:4]])
             rest.append(c)
         except ValueError:
             pass
